@@ -15,8 +15,8 @@ PROP = dict(
          "1500 (quick) / 40000 (thorough) seeded random arm lists; each program is checked by the real checker through "
          "check_lsp / compile_bytecode; compared: sorted witness list; spec oracle: brute force over every value of the "
          "finite representative domain (accepted => every value matched; reported => some value unmatched and every "
-         "listed witness covers an unmatched value); placement dimension (D70): case i stands at one of 17 syntactic placements in rotation (let initialiser, arm body and scrutinee of another match, function / lambda / task / block / if / else / while / for body, call argument, array / tuple / struct literal element, index of an assignment target, struct-field default); every third case is also checked as a let initialiser and both verdicts must be equal; two fixed matches are checked at all 17 placements; non-trivial = non-exhaustive verdict or an or-pattern in an arm",
-    nontrivial=lambda req, imp: imp != "w=" or " or " in req,
+         "listed witness covers an unmatched value); placement dimension (D70): case i stands at one of 17 syntactic placements in rotation (let initialiser, arm body and scrutinee of another match, function / lambda / task / block / if / else / while / for body, call argument, array / tuple / struct literal element, index of an assignment target, struct-field default); every third case is also checked as a let initialiser and both verdicts must be equal; two fixed matches are checked at all 17 placements; run-time half: 150 (quick) / 4000 (thorough) accepted arm lists with two or more sibling or-patterns in different components (tuple / struct components, variant fields) are compiled and run on every value of the scrutinee type (up to 12 / 64, mixed-combination values first); the arm taken is compared with the model's first match (`pc first`) and with the Rust reference; non-trivial = non-exhaustive verdict or an or-pattern in an arm",
+    nontrivial=lambda req, imp: (imp != "w=" and not imp.startswith("arm=0")) or " or " in req,
     trusted_base=COMMON_TB + [
         "type inference delivers arms of the scrutinee's type (Abra.PatMatrix.patTyped) before the exhaustiveness pass runs; solution_of_node types are taken from the harness' own type of each sub-pattern",
         "named struct/variant fields are put into declaration order by the harness (from_ast_pat does it with `find`); generic type arguments, arrays and function types are not in the model",
